@@ -12,8 +12,9 @@ EXPLANATION = (
     "business field, flag bits below it. R17.2 pipeline: in both fillers that call them the stage order is candidates -> clr_poss -> shift -> "
     "guarded commit (so the shifted date replaces the unshifted one and is subject to DTSTART/COUNT/UNTIL); fill_yly_eastr is reached "
     "exactly under `Gregorian scale && BYEASTER has members`; BYEASTER's parser guard lies inside the container's domain; the business-day "
-    "letter and the B+/B- direction forms are parsed.")
-NOT_DECIDED = "the computus (Easter date), the business-day arithmetic and year carry of shift() — all value-level; the behaviour itself"
+    "letter and the B+/B- direction forms are parsed. R17.3 carry pairs: where a month variable carries into a year variable, calendar "
+    "helpers taking (year, month) are handed that pair, not the starting year.")
+NOT_DECIDED = "the computus (Easter date), the business-day arithmetic of shift() — all value-level; the behaviour itself"
 TRUSTED = ["clang 14 parser/CFG builder", "echse-facts extractor", "python rule engines in /verif/sa"]
 LEVEL_TEXT = ("Static verdict on narrow necessary clauses of C17 only: writer/reader agreement of the packed SHIFT value, the order of the "
               "BYSETPOS/SHIFT/guard stages, reachability and guard of the BYEASTER expansion. The Easter computus and business-day "
